@@ -244,7 +244,7 @@ def _ders_shapes(tier):
         if d['where'] == 'end':
             continue
         p, k = d['p'], len(d['mult'])
-        one = p <= 4 or d['where'] == 'knot' or (p == 5 and k <= 1) or (p == 6 and k == 0)
+        one = p <= 4 or (p == 5 and k <= 1) or (p == 6 and k == 0)
         out.append(dict(d, one=one))
     return out
 
